@@ -14,18 +14,23 @@ every sampler, worker assignment and kept-record capacity.  `f.dry` is the value
 `Config.GetIsDryRun()` when span `f` was handed to the transmission, so `dryrun_rate` and
 `dryrun_marker` speak about every span forwarded under dry run even when DryRun is toggled by
 reloads; `dryrun_all_forwarded` is about DryRun being on throughout.  The stress-relief path
-(`ProcessSpanImmediately`) is not part of this model (property C16).
+(`ProcessSpanImmediately`, taken by every span while the node is stressed) is part of the model: it
+ignores dry run — spans it drops are the property's one exception (`s.stressDropped`), spans it keeps
+are forwarded with the client's rate but *without* the marker (`stress_forward_unmarked`; no sampler
+decision exists for them).
 -/
 namespace Refinery.Props.C05
 open Refinery.Model.Collector Refinery.Lemmas.Collector
 
 /-- **dryrun_all_forwarded** — DryRun on throughout: every accepted span whose trace has left the
-buffer and `tracesToSend` has been forwarded, exactly once — whatever the sampler decided, on every
-decision path, late spans included, remembered or not. -/
+buffer and `tracesToSend` has been forwarded exactly once — whatever the sampler decided, on every
+decision path, late spans included, remembered or not — **or** was dropped by stress relief
+(exactly one of the two): the only spans not forwarded are those dropped by stress relief. -/
 theorem dryrun_all_forwarded (P : Params) (dry : Bool) (ops : List Op) (t : Nat)
     (halways : (run P dry ops).everWet = false)
     (hq : Quiescent (run P dry ops) t) :
-    ∀ sp ∈ (run P dry ops).accepted, sp.trace = t → timesForwarded (run P dry ops) sp.id = 1 := by
+    ∀ sp ∈ (run P dry ops).accepted, sp.trace = t →
+      timesForwarded (run P dry ops) sp.id + (ids (run P dry ops).stressDropped).count sp.id = 1 := by
   intro sp hsp ht
   have h := inv_run P dry ops
   have hc := h.cons sp.id
@@ -50,14 +55,32 @@ theorem dryrun_all_forwarded (P : Params) (dry : Bool) (ops : List Op) (t : Nat)
   unfold timesForwarded
   omega
 
+/-- the stress exception is exactly that: a span counted in `stressDropped` was refused by the stress
+path because a "drop" decision exists for its trace (the stress decision itself, or an earlier
+recorded drop) — or the dropped-trace filter gave a false positive. -/
+theorem stress_dropped_decided (P : Params) (dry : Bool) (ops : List Op) :
+    ∀ sp ∈ (run P dry ops).stressDropped,
+      (∃ d ∈ (run P dry ops).decisions, d.trace = sp.trace ∧ d.keep = false) ∨ sp.trace ∈ (run P dry ops).falsePos :=
+  (inv_run P dry ops).sdropDec
+
+/-- DryRun on throughout and stress relief never on: every span is forwarded, exactly once. -/
+theorem dryrun_all_forwarded_nostress (P : Params) (dry : Bool) (ops : List Op) (t : Nat)
+    (halways : (run P dry ops).everWet = false) (hns : (run P dry ops).everStressed = false)
+    (hq : Quiescent (run P dry ops) t) :
+    ∀ sp ∈ (run P dry ops).accepted, sp.trace = t → timesForwarded (run P dry ops) sp.id = 1 := by
+  intro sp hsp ht
+  have := dryrun_all_forwarded P dry ops t halways hq sp hsp ht
+  rw [((inv_run P dry ops).noStress hns).2.1] at this
+  simpa using this
+
 /-- `dryrun_all_forwarded` with the hypothesis as a predicate of the op list: the collector starts
 with DryRun on and no reload turns it off. -/
 theorem dryrun_all_forwarded_ops (P : Params) (ops : List Op) (t : Nat)
-    (hno : NoWetReload ops) (hq : Quiescent (run P true ops) t) :
+    (hno : NoWetReload ops) (hns : NoStressOn ops) (hq : Quiescent (run P true ops) t) :
     ∀ sp ∈ (run P true ops).accepted, sp.trace = t → timesForwarded (run P true ops) sp.id = 1 :=
-  dryrun_all_forwarded P true ops t (everWet_run P ops hno) hq
+  dryrun_all_forwarded_nostress P true ops t (everWet_run P ops hno) (everStressed_run P true ops hns) hq
 
-/-- DryRun on throughout: nothing is ever discarded. -/
+/-- DryRun on throughout: no decision and no late-span lookup ever discards a span. -/
 theorem dryrun_nothing_dropped (P : Params) (dry : Bool) (ops : List Op)
     (halways : (run P dry ops).everWet = false) : (run P dry ops).discarded = [] :=
   ((inv_run P dry ops).allDry halways).2.1
@@ -68,8 +91,7 @@ accepted span arrived with, by `client_is_accepted`.) -/
 theorem dryrun_rate (P : Params) (dry : Bool) (ops : List Op) :
     ∀ f ∈ (run P dry ops).out, f.dry = true → clientOr1 f.rate = clientOr1 f.client := by
   intro f hf hd
-  obtain ⟨_, _, _, hr⟩ := (inv_run P dry ops).outDry f hf hd
-  exact hr
+  exact (inv_run P dry ops).outRate f hf hd
 
 theorem client_is_accepted (P : Params) (dry : Bool) (ops : List Op) :
     ∀ f ∈ (run P dry ops).out, ∃ sp ∈ (run P dry ops).accepted, sp.id = f.sid ∧ sp.client = f.client := by
@@ -81,27 +103,33 @@ theorem client_is_accepted (P : Params) (dry : Bool) (ops : List Op) :
 `k` is a decision the sampler made for its trace; the one exception the code allows is a false
 positive of the dropped-trace filter (the span is then marked `false` although no decision exists). -/
 theorem dryrun_marker (P : Params) (dry : Bool) (ops : List Op) :
-    ∀ f ∈ (run P dry ops).out, f.dry = true →
+    ∀ f ∈ (run P dry ops).out, f.dry = true → f.stress = false →
       ∃ k, f.marker = some k ∧
         ((∃ d ∈ (run P dry ops).decisions, d.trace = f.trace ∧ d.keep = k) ∨
          (k = false ∧ f.trace ∈ (run P dry ops).falsePos)) := by
-  intro f hf hd
-  obtain ⟨k, hk, hor, _⟩ := (inv_run P dry ops).outDry f hf hd
-  exact ⟨k, hk, hor⟩
+  intro f hf hd hst
+  exact (inv_run P dry ops).outDry f hf hd hst
 
 /-- **dryrun_marker**, remembered trace: the marker equals *the* decision of the trace. -/
 theorem dryrun_marker_unique (P : Params) (dry : Bool) (ops : List Op) (t : Nat)
-    (hrem : Remembered (run P dry ops) t) :
-    ∀ f ∈ (run P dry ops).out, f.trace = t → f.dry = true →
+    (hrem : Remembered (run P dry ops) t) (hsc : StressConstant (run P dry ops) t) :
+    ∀ f ∈ (run P dry ops).out, f.trace = t → f.dry = true → f.stress = false →
       ∀ d ∈ (run P dry ops).decisions, d.trace = t → f.marker = some d.keep := by
-  intro f hf ht hd d hdm hdt
+  intro f hf ht hd hst d hdm hdt
   have h := inv_run P dry ops
-  obtain ⟨k, hk, hor, _⟩ := h.outDry f hf hd
+  obtain ⟨k, hk, hor⟩ := h.outDry f hf hd hst
   rcases hor with ⟨d', hd', hdt', hdk'⟩ | ⟨_, hfp⟩
-  · have := decision_unique h hrem.1 hdm hdt hd' (hdt'.trans ht)
+  · have := decision_unique h hrem.1 hsc hdm hdt hd' (hdt'.trans ht)
     subst this
     rw [hk, hdk']
   · exact absurd (ht ▸ hfp) hrem.2
+
+/-- a span forwarded by the stress path carries no dry-run marker (`ProcessSpanImmediately` ignores
+dry run) and belongs to a trace with a recorded "keep" -/
+theorem stress_forward_unmarked (P : Params) (dry : Bool) (ops : List Op) :
+    ∀ f ∈ (run P dry ops).out, f.stress = true →
+      f.marker = none ∧ ∃ d ∈ (run P dry ops).decisions, d.trace = f.trace ∧ d.keep = true :=
+  (inv_run P dry ops).outStress
 
 /-- the marker is only ever set under dry run -/
 theorem marker_only_in_dryrun (P : Params) (dry : Bool) (ops : List Op) :
@@ -122,6 +150,15 @@ example : (run exP true exOps).everWet = false ∧ Quiescent (run exP true exOps
   decide
 example : (run exP true exOps).out.map (fun f => (f.sid, f.rate, f.marker)) =
     [(2, 0, some false), (0, 1, some true), (1, 4, some false), (3, 4, some true)] := by decide
+/-- stress relief under dry run: trace 5 is dropped by stress relief (the exception), trace 4 kept
+and forwarded unmarked with the client's rate; afterwards a normal late span of trace 4 is marked -/
+def exStressP : Params := { exP with stressDecide := fun t => { keep := t % 2 == 0, rate := 9 } }
+def exStressOps : List Op :=
+  [.stress true, .span 5 true 2 false, .span 4 true 3 false, .stress false, .span 4 false 0 false]
+example : (run exStressP true exStressOps).stressDropped.map (·.id) = [0] ∧
+    (run exStressP true exStressOps).out.map (fun f => (f.sid, f.rate, f.marker, f.stress)) =
+      [(1, 3, none, true), (2, 1, some true, false)] ∧ (run exStressP true exStressOps).everWet = false := by decide
+
 /-- the same history with DryRun off: the dropped trace is gone and rates are multiplied -/
 example : (run exP false exOps).out.map (fun f => (f.sid, f.rate, f.marker)) = [(0, 7, none), (3, 28, none)] := by decide
 
